@@ -936,7 +936,7 @@ class Explorer:
         `models` different models of the path condition), to the harness's replay on the real code.  A replay that shows a violation
         is a solver-produced, reproduced counterexample; anything else leaves the obligation inconclusive."""
         fb = self.fallback
-        if fb is None or getattr(self, 'n_candidates', 0) >= 20:
+        if fb is None or getattr(self, 'n_candidates', 0) >= 60:
             return
         replay, key, what = fb
         ints = [v for _, v in self.named if z3.is_int(v)]
